@@ -236,3 +236,69 @@ def real_spec_of_instance(inst):
         watch_ops.append(["write", p, content[inst["hash_fs"]]])
     items = {"": [], "U": [["UPDATED", p]], "D": [["DELETED", p]]}[inst["set"]]
     return spec, [{"ops": ops, "watch_ops": watch_ops, "items": items}]
+
+
+def random_scripted(rng, racing_writes=False):
+    """A random project (static files, some of them matched by registered patterns, one consumer that may have
+    FAILED) and 1-3 phases of regular-file operations with the items change_loop emits for them; operations
+    while the build runs only touch declared static files (the promise of C14 for that window); with some
+    probability the tail of a phase is `late` (translated after end_watching, drained by the next phase):
+    deletions of static files by default, also writes with racing_writes=True."""
+    static = {p: "S:" + p for p in ["a.txt", "b.txt", "d1/x.dat", "d1/y.dat", "d1/s1.txt"] if rng.random() < 0.8}
+    if rng.random() < 0.4:
+        static["gone.dat"] = None
+    if not static:
+        static["a.txt"] = "S:a.txt"
+    live = sorted(p for p, c in static.items() if c is not None)
+    spec = {"dirs": ["d1"], "static": static, "extra": {p: "E" for p in ["d1/e.dat", "n.dat"] if rng.random() < 0.5},
+            "globs": [{"step": "./plan.py", "pattern": g} for g in rng.sample(["d1/*.dat", "*.dat", "d1/s*.txt", "*.txt"], k=rng.randint(1, 2))],
+            "steps": [{"cmd": "s1", "inp": rng.sample(live, k=min(len(live), rng.randint(0, 2))), "out": {"o1.out": "O"},
+                       "state": rng.choice(["SUCCEEDED", "FAILED", "PENDING"])}] if rng.random() < 0.8 else []}
+    exists = set(live) | set(spec["extra"])
+    content = {p: static[p] for p in live}
+    pool = sorted(set(static) | set(spec["extra"]) | {"d1/new.dat", "k.dat"})
+
+    def gen_ops(n, only_static, deletions_only=False):
+        ops, items = [], []
+        for _ in range(n):
+            p = rng.choice(sorted(static) if only_static else pool)
+            r = rng.random()
+            if deletions_only:
+                r = r * 0.45
+                if p not in exists:
+                    continue
+            if r < 0.15 and only_static and p in exists and static.get(p) is not None:
+                ops.append(["vanish", p]); items.append(["DELETED", p]); exists.discard(p)
+            elif r < 0.45 and p in exists:
+                ops.append(["rm", p]); items.append(["DELETED", p]); exists.discard(p)
+            elif r < 0.55 and p in exists and not only_static:
+                q = rng.choice(pool)
+                if q == p or q in exists:
+                    continue
+                ops.append(["mv", p, q]); items += [["DELETED", p], ["UPDATED", q]]
+                exists.discard(p); exists.add(q); content[q] = content.get(p)
+            else:
+                c = rng.choice([content.get(p) or ("S:" + p), "X1", "X2"])
+                ops.append(["write", p, c]); items += [["UPDATED", p]] * (2 if p in exists else 3)
+                exists.add(p); content[p] = c
+        return ops, items
+    phases, carry = [], []
+    for _k in range(rng.randint(1, 3)):
+        ph = {"queued": list(carry)}
+        carry = []
+        if rng.random() < 0.5:
+            o, i = gen_ops(rng.randint(1, 2), True)
+            ph["ops"] = o
+            ph["queued"] += i
+        o, i = gen_ops(rng.randint(0, 3), False)
+        ph["watch_ops"], ph["items"] = o, i
+        if rng.random() < 0.3:
+            # a late WRITE (file re-created between end_watching and the hash job) is only generated on request:
+            # see findings.d/C14-prune-race.json (state-level disagreement, end-to-end reachability not established)
+            o, i = gen_ops(1, True, deletions_only=not racing_writes)
+            ph["late_ops"] = o
+            carry = i
+        phases.append(ph)
+    if carry:
+        phases.append({"queued": carry})
+    return spec, phases
